@@ -264,7 +264,7 @@ def evaluate(cases):
             else:
                 sub = os.path.join(d, "b%d" % i)
                 os.makedirs(sub)
-                text, _ = c10._gen_file(rng, True)
+                text, _ = c10._gen_file(rng, True, zero_sizes=True)
                 p = os.path.join(sub, "f.sym")
                 open(p, "wb").write(text.encode("latin-1"))
                 paths.append(p)
